@@ -83,6 +83,8 @@ def _eligible(var, lam, fn):
         # const locals; if(c) return A; return B;   ==   return c ? A : B;   (rewritten in place, then inlined as an expression)
         lam["body"] = {"k": "CompoundStmt", "l": lam["body"].get("l"), "c": [sel]}
         return "expr"
+    if _multi_ok(lam):
+        return "multi"       # early returns in tail positions only: inlined where the result initialises a declaration / is assigned
     return None
 
 
@@ -214,6 +216,98 @@ def _stable_lvalue(a):
     return a.get("k") in ("DeclRefExpr", "CXXThisExpr") or (a.get("k") == "MemberExpr" and not a.get("c"))
 
 
+
+# ---- functions / lambdas with early returns, results bound to a declaration (possibly a structured binding) ----------
+_WRAP = ("ExprWithCleanups", "MaterializeTemporaryExpr", "CXXBindTemporaryExpr", "ImplicitCastExpr", "CXXFunctionalCastExpr", "ParenExpr")
+
+
+def _tuple_elems(value, n):
+    """the n element expressions of a returned pair / tuple / array value, or None"""
+    v = value
+    for _ in range(8):
+        if v.get("k") in _WRAP and len([c for c in v.get("c", []) if isinstance(c, dict)]) == 1:
+            v = [c for c in v["c"] if isinstance(c, dict)][0]
+            continue
+        if v.get("k") in ("CXXConstructExpr", "CXXTemporaryObjectExpr") and len([c for c in v.get("c", []) if isinstance(c, dict)]) == 1 and n != 1:
+            v = [c for c in v["c"] if isinstance(c, dict)][0]      # copy / move of the aggregate
+            continue
+        break
+    k = v.get("k")
+    if k == "CallExpr" and v.get("callee") in ("std::make_pair", "std::make_tuple"):
+        el = [c for c in v.get("c", [])[1:] if isinstance(c, dict)]
+        return el if len(el) == n else None
+    if k == "InitListExpr":
+        el = [c for c in v.get("c", []) if isinstance(c, dict)]
+        if len(el) == 1 and el[0].get("k") == "InitListExpr" and n != 1:
+            el = [c for c in el[0].get("c", []) if isinstance(c, dict)]
+        return el if len(el) == n else None
+    if k in ("CXXConstructExpr", "CXXTemporaryObjectExpr") and re.match(r"^(const )?std::(pair|tuple|array)<", v.get("t", "") or ""):
+        el = [c for c in v.get("c", []) if isinstance(c, dict)]
+        return el if len(el) == n else None
+    return None
+
+
+def _always_returns(b):
+    st = b.get("c", []) if b.get("k") == "CompoundStmt" else [b]
+    if not st:
+        return False
+    last = st[-1]
+    if last.get("k") == "ReturnStmt":
+        return True
+    if last.get("k") == "IfStmt" and isinstance(last.get("else"), dict):
+        return _always_returns(last["then"]) and _always_returns(last["else"])
+    if last.get("k") == "CompoundStmt":
+        return _always_returns(last)
+    return False
+
+
+def _returns_to_assignments(stmts, setter):
+    """statement list in which `return E;` occurs only in tail position of the list or of if-branches: the same list with every
+    `return E;` replaced by setter(E) and the statements that follow an `if(c){...return}` moved into its else branch.  None if a
+    return sits anywhere else (inside a loop, a switch, a try, a partially returning if)."""
+    out = []
+    for i, s_ in enumerate(stmts):
+        k = s_.get("k")
+        if k == "ReturnStmt":
+            if not isinstance(s_.get("value"), dict):
+                return None
+            a = setter(s_["value"], s_.get("l"))
+            return None if a is None else out + a
+        has_ret = any(x.get("k") == "ReturnStmt" for x in walk(s_, into_lambdas=False))
+        if not has_ret:
+            out.append(s_)
+            continue
+        if k == "CompoundStmt":
+            inner = _returns_to_assignments(s_.get("c", []), setter)
+            if inner is None or not _always_returns(s_):
+                return None
+            return out + [dict(s_, c=inner)]
+        if k != "IfStmt" or "condvar" in s_ or isinstance(s_.get("init"), dict):
+            return None
+        then_b = s_["then"].get("c", []) if s_["then"].get("k") == "CompoundStmt" else [s_["then"]]
+        if isinstance(s_.get("else"), dict):
+            else_b = s_["else"].get("c", []) if s_["else"].get("k") == "CompoundStmt" else [s_["else"]]
+            tr, er = _always_returns(s_["then"]), _always_returns(s_["else"])
+            if tr and er:
+                t2, e2 = _returns_to_assignments(then_b, setter), _returns_to_assignments(else_b, setter)
+                if t2 is None or e2 is None:
+                    return None
+                return out + [dict(s_, then={"k": "CompoundStmt", "l": s_.get("l"), "c": t2}, **{"else": {"k": "CompoundStmt", "l": s_.get("l"), "c": e2}})]
+            return None
+        if not _always_returns(s_["then"]):
+            return None
+        t2 = _returns_to_assignments(then_b, setter)
+        e2 = _returns_to_assignments(stmts[i + 1:], setter)
+        if t2 is None or e2 is None:
+            return None
+        return out + [dict(s_, then={"k": "CompoundStmt", "l": s_.get("l"), "c": t2}, **{"else": {"k": "CompoundStmt", "l": s_.get("l"), "c": e2}})]
+    return None      # falls off the end without a value
+
+
+def _multi_ok(lam):
+    return _returns_to_assignments(lam["body"].get("c", []), lambda v, l: []) is not None
+
+
 class _Inliner:
     def __init__(self, fn):
         self.fn = fn
@@ -283,6 +377,60 @@ class _Inliner:
         blk["splice"] = True
         return blk
 
+    def multi_for(self, stmt, call, lam):
+        """`T v = f(args);`, `auto [a, b] = f(args);` or `x = f(args);` with f's returns in tail positions:
+        ->  T v; / A a; B b;   { P p = arg...; <body with `return E;` replaced by `v = E;` resp. `a = E1; b = E2;`> }
+        (spliced into the enclosing sequence; early returns become if/else)."""
+        blk = self.block_for(call, {"params": lam["params"], "body": lam["body"], "captures": lam.get("captures", [])})
+        if blk is None:
+            return None
+        nbody = len(lam["body"].get("c", []))
+        pre, body = blk["c"][:len(blk["c"]) - nbody], blk["c"][len(blk["c"]) - nbody:]
+        decls_out = []
+        if stmt.get("k") == "DeclStmt":
+            d = stmt["decls"][0]
+            if d.get("k") == "Var":
+                nv = {k_: v_ for k_, v_ in d.items() if k_ != "init"}
+                nv["t"] = re.sub(r"^const\s+", "", nv.get("t", "") or "")
+                decls_out = [nv]
+                targets = [nv]
+            elif d.get("k") == "Decomposition":
+                targets = []
+                for b in d.get("bindings", []):
+                    nv = {"k": "Var", "did": b.get("did"), "name": b.get("name"), "t": re.sub(r"^const\s+", "", b.get("t", "") or ""), "l": d.get("l"), "from_binding": True}
+                    targets.append(nv)
+                decls_out = list(targets)
+            else:
+                return None
+
+            def ref(v, l):
+                return {"k": "DeclRefExpr", "t": v.get("t"), "vc": "l", "l": l, "ref": {"did": v["did"], "dk": "Var", "name": v.get("name")}}
+        else:
+            core = strip(stmt)
+            lhs = core["c"][0] if core.get("k") == "BinaryOperator" else core["c"][1]
+            targets = [None]
+
+            def ref(v, l):
+                return copy.deepcopy(lhs)
+
+        def setter(value, l):
+            if len(targets) == 1:
+                els = [value]
+            else:
+                els = _tuple_elems(value, len(targets))
+                if els is None:
+                    return None
+            return [{"k": "BinaryOperator", "op": "=", "t": (t_ or {}).get("t") if isinstance(t_, dict) else None, "l": l, "c": [ref(t_, l), e_]} for t_, e_ in zip(targets, els)]
+        conv = _returns_to_assignments(body, setter)
+        if conv is None:
+            self.count -= 1
+            return None
+        out = []
+        if decls_out:
+            out.append({"k": "DeclStmt", "l": stmt.get("l"), "decls": decls_out, "result_of_inlined_call": True})
+        out.append({"k": "CompoundStmt", "l": call.get("l"), "inlined_lambda": True, "c": pre + conv})
+        return {"k": "CompoundStmt", "l": call.get("l"), "inlined_lambda": True, "splice": True, "c": out}
+
     def expr_for(self, call, lam):
         args = call["c"][2:]
         params = lam["params"]
@@ -345,14 +493,19 @@ class _Inliner:
                 if isinstance(n.get("handlers"), list):
                     n["handlers"] = [rewrite(x, False) if isinstance(x, dict) else x for x in n["handlers"]]
                 core = strip(n)
-                if stmt_pos and n.get("k") == "DeclStmt" and len(n.get("decls", [])) == 1 and n["decls"][0].get("k") == "Var" and isinstance(n["decls"][0].get("init"), dict):
+                if stmt_pos and n.get("k") == "DeclStmt" and len(n.get("decls", [])) == 1 and n["decls"][0].get("k") in ("Var", "Decomposition") and isinstance(n["decls"][0].get("init"), dict):
                     rhs = strip(n["decls"][0]["init"])
                     while rhs.get("k") in ("CXXConstructExpr", "MaterializeTemporaryExpr", "CXXBindTemporaryExpr", "ExprWithCleanups") and len(rhs.get("c", [])) == 1:
                         rhs = strip(rhs["c"][0])
                     d2 = _is_lambda_call(rhs, lambdas)
-                    if d2 is not None and lambdas[d2][2] == "tail":
+                    if d2 is not None and lambdas[d2][2] == "tail" and n["decls"][0].get("k") == "Var":
                         r = self.tail_for_decl(n, n["decls"][0], rhs, lambdas[d2][1])
                         if r is not None:
+                            return r
+                    elif d2 is not None and lambdas[d2][2] in ("tail", "multi"):
+                        r = self.multi_for(n, rhs, lambdas[d2][1])
+                        if r is not None:
+                            self.bindings_to_vars = True
                             return r
                 if stmt_pos and core.get("k") in ("BinaryOperator", "CXXOperatorCallExpr") and core.get("op") == "=":
                     rhs = strip(core["c"][1] if core["k"] == "BinaryOperator" else core["c"][2]) if len(core.get("c", [])) >= 2 else {}
@@ -361,6 +514,10 @@ class _Inliner:
                     d2 = _is_lambda_call(rhs, lambdas)
                     if d2 is not None and lambdas[d2][2] == "tail":
                         r = self.tail_for(n, rhs, lambdas[d2][1])
+                        if r is not None:
+                            return r
+                    elif d2 is not None and lambdas[d2][2] == "multi" and core.get("k") == "BinaryOperator":
+                        r = self.multi_for(n, rhs, lambdas[d2][1])
                         if r is not None:
                             return r
                 did = _is_lambda_call(core, lambdas)
@@ -387,6 +544,7 @@ class _Inliner:
                 return n
             body = rewrite(body, False)
             self.fn["body"] = body
+            _bindings_to_vars(body)
             # drop lambda variables that are no longer referenced
             for did, (var, lam, kind) in lambdas.items():
                 used = any(x.get("k") == "DeclRefExpr" and isinstance(x.get("ref"), dict) and x["ref"].get("did") == did for x in walk(body))
@@ -408,6 +566,17 @@ class _Inliner:
                             continue
                     keep.append(s)
                 n["c"] = keep
+
+
+def _bindings_to_vars(body):
+    """references to structured bindings that were turned into ordinary variables by multi_for"""
+    dids = {v["did"] for v in walk(body) if v.get("k") == "Var" and v.get("from_binding")}
+    if not dids:
+        return
+    for x in walk(body):
+        r = x.get("ref")
+        if isinstance(r, dict) and r.get("did") in dids and r.get("dk") == "Binding":
+            r["dk"] = "Var"
 
 
 def inline_local_lambdas(fn):
@@ -499,7 +668,7 @@ def inline_new_helpers(prog, inventory, repo_prefix):
                 core = strip(n)
                 # x = helper(args);   /   T v = helper(args);   with a helper made of statements and one final return
                 tgt_call = None
-                if stmt_pos and n.get("k") == "DeclStmt" and len(n.get("decls", [])) == 1 and n["decls"][0].get("k") == "Var" and isinstance(n["decls"][0].get("init"), dict):
+                if stmt_pos and n.get("k") == "DeclStmt" and len(n.get("decls", [])) == 1 and n["decls"][0].get("k") in ("Var", "Decomposition") and isinstance(n["decls"][0].get("init"), dict):
                     tgt_call = strip(n["decls"][0]["init"])
                 elif stmt_pos and core.get("k") in ("BinaryOperator", "CXXOperatorCallExpr") and core.get("op") == "=" and len(core.get("c", [])) >= 2:
                     tgt_call = strip(core["c"][1] if core["k"] == "BinaryOperator" else core["c"][2])
@@ -507,7 +676,7 @@ def inline_new_helpers(prog, inventory, repo_prefix):
                     while tgt_call.get("k") in ("CXXConstructExpr", "MaterializeTemporaryExpr", "CXXBindTemporaryExpr", "ExprWithCleanups") and len(tgt_call.get("c", [])) == 1:
                         tgt_call = strip(tgt_call["c"][0])
                     hit2, args2 = site(tgt_call)
-                    if hit2 is not None and hit2[2] == "tail" and hit2[0] is not g:
+                    if hit2 is not None and hit2[2] in ("tail", "multi") and hit2[0] is not g:
                         f2, pseudo2, _k2 = hit2
                         fake2 = {"c": [None, None] + list(args2), "l": tgt_call.get("l"), "t": tgt_call.get("t")}
                         body2 = pseudo2
@@ -515,7 +684,14 @@ def inline_new_helpers(prog, inventory, repo_prefix):
                             inl.site += 1
                             mapping2 = {d: _FRESH * 7 * inl.site + (d if isinstance(d, int) else hash(d) % _FRESH) for d in _all_dids(f2["body"]) | {p["did"] for p in f2.get("params", [])}}
                             body2 = {"params": [dict(p, did=mapping2[p["did"]]) for p in f2.get("params", [])], "body": _remap(f2["body"], mapping2), "captures": []}
-                        r2 = inl.tail_for_decl(n, n["decls"][0], fake2, body2) if n.get("k") == "DeclStmt" else inl.tail_for(n, fake2, body2)
+                        if _k2 == "tail" and n.get("k") == "DeclStmt" and n["decls"][0].get("k") == "Var":
+                            r2 = inl.tail_for_decl(n, n["decls"][0], fake2, body2)
+                        elif _k2 == "tail" and n.get("k") != "DeclStmt":
+                            r2 = inl.tail_for(n, fake2, body2)
+                        elif n.get("k") == "DeclStmt" or strip(n).get("k") == "BinaryOperator":
+                            r2 = inl.multi_for(n, fake2, body2)
+                        else:
+                            r2 = None
                         if r2 is not None:
                             r2["inlined_helper"] = f2["qn"]
                             return r2
@@ -554,6 +730,7 @@ def inline_new_helpers(prog, inventory, repo_prefix):
                 return n
             g["body"] = _hoist_condition_calls(g["body"], site, g, inl)
             g["body"] = rewrite(g["body"], False)
+            _bindings_to_vars(g["body"])
             changed += inl.count
         total += changed
         if not changed:
